@@ -608,7 +608,9 @@ def free_vars(fn):
             ex(s[3])
             fl = s[4] if len(s) > 4 and s[4] else ()
             if "modify" in fl:
-                use(s[1])
+                # `modify` addresses the variable of an enclosing scope whatever this function has bound under that name
+                # (a parameter, an earlier local): the function captures it
+                free.add(s[1])
             else:
                 bound.add(s[1])
         elif k in ("print", "assert", "expr"):
